@@ -29,6 +29,8 @@ pub enum Op {
     Cleanup,
     /// advance the virtual clock: 0 = interval/2, 1 = interval, 2 = timeout
     Adv(u8),
+    /// the holder of session s (handed out by Get, alive) returns it to the pool (add_idle_session)
+    Put(usize),
 }
 
 fn op_str(o: &Op) -> String {
@@ -39,6 +41,7 @@ fn op_str(o: &Op) -> String {
         Op::Fin(s) => format!("fin({s})"),
         Op::Die(s) => format!("die({s})"),
         Op::Cleanup => "cleanup".into(),
+        Op::Put(s) => format!("put({s})"),
         Op::Adv(k) => ["adv(I/2)", "adv(I)", "adv(T)"][*k as usize].into(),
     }
 }
@@ -60,6 +63,7 @@ struct Live {
     streams: Vec<Arc<Stream>>,
     // model
     in_map: bool,
+    idle_since: tokio::time::Instant,
 }
 
 type Viols = Vec<(String, String)>;
@@ -76,6 +80,7 @@ fn pool_scenario(cfg: Cfg, h: Vec<Op>, slot: Arc<Mutex<(Viols, String)>>) -> Sce
                 min_idle_sessions: cfg.min_idle,
             });
             // let the reaper's immediate first tick pass
+            let t0 = tokio::time::Instant::now();
             settle().await;
             let mut ss: Vec<Live> = vec![];
             let mut trace = vec![];
@@ -91,6 +96,7 @@ fn pool_scenario(cfg: Cfg, h: Vec<Op>, slot: Arc<Mutex<(Viols, String)>>) -> Sce
                 let idle_before = ss.iter().enumerate().filter(|(i, s)| live_before[*i] && s.in_map && counts_before[*i] == 0).count();
                 let inuse_in_map_before = ss.iter().enumerate().any(|(i, s)| live_before[i] && s.in_map && counts_before[i] > 0);
                 let mut reaper_may_run = false;
+                let step_start = tokio::time::Instant::now();
                 match op {
                     Op::New(with_stream) => {
                         let link = peer_link(PipeCfg::new("s2c"), PipeCfg::new("c2s"));
@@ -98,7 +104,7 @@ fn pool_scenario(cfg: Cfg, h: Vec<Op>, slot: Arc<Mutex<(Viols, String)>>) -> Sce
                             Ok(sess) => {
                                 // client.rs:315 — inserted at creation
                                 pool.add_idle_session(sess.clone()).await;
-                                let mut l = Live { sess, peer: link.peer, streams: vec![], in_map: true };
+                                let mut l = Live { sess, peer: link.peer, streams: vec![], in_map: true, idle_since: tokio::time::Instant::now() };
                                 if *with_stream
                                     && let Ok((st, _rx)) = l.sess.open_stream().await
                                 {
@@ -162,6 +168,16 @@ fn pool_scenario(cfg: Cfg, h: Vec<Op>, slot: Arc<Mutex<(Viols, String)>>) -> Sce
                             tokio::time::sleep(Duration::from_millis(1)).await;
                         }
                     }
+                    Op::Put(i) => {
+                        if let Some(l) = ss.get_mut(*i)
+                            && !l.in_map
+                            && !l.sess.is_closed()
+                        {
+                            pool.add_idle_session(l.sess.clone()).await;
+                            l.in_map = true;
+                            l.idle_since = tokio::time::Instant::now();
+                        }
+                    }
                     Op::Cleanup => {
                         reaper_may_run = true;
                         if tokio::time::timeout(Duration::from_secs(60), pool.cleanup_expired()).await.is_err() {
@@ -214,6 +230,29 @@ fn pool_scenario(cfg: Cfg, h: Vec<Op>, slot: Arc<Mutex<(Viols, String)>>) -> Sce
                     if idle_after < cfg.min_idle.min(idle_before) {
                         let key = if inuse_in_map_before { "C12:min-idle-not-kept:in-use-session-counted-as-idle" } else { "C12:min-idle-not-kept" };
                         viols.push((key.into(), format!("{pre}: {idle_before} idle session(s) before the pass, {idle_after} after, minimum {}", cfg.min_idle)));
+                    }
+                }
+                // a pass closes the surplus: stream-less pooled sessions idle for longer than the timeout at the
+                // moment of the pass survive it only as (part of) the configured minimum
+                if reaper_may_run {
+                    let now = tokio::time::Instant::now();
+                    let pass_at = if matches!(op, Op::Cleanup) {
+                        Some(now)
+                    } else {
+                        let k = now.duration_since(t0).as_millis() as u64 / cfg.interval_ms;
+                        let last_tick = t0 + Duration::from_millis(k * cfg.interval_ms);
+                        if last_tick > step_start { Some(last_tick) } else { None }
+                    };
+                    if let Some(p) = pass_at {
+                        let mut overdue = vec![];
+                        for (i, s) in ss.iter().enumerate() {
+                            if !s.sess.is_closed() && s.in_map && s.idle_since + Duration::from_millis(cfg.timeout_ms) < p && s.sess.verif_stream_count().await == 0 {
+                                overdue.push((i, p.duration_since(s.idle_since).as_millis() as u64));
+                            }
+                        }
+                        if overdue.len() > cfg.min_idle {
+                            viols.push(("C12:expired-surplus-survives-pass".into(), format!("{pre}: after the reaper pass at {} ms the stream-less pooled session(s) (index, idle ms) {:?} are still open although idle for longer than the timeout; minimum is {}", p.duration_since(t0).as_millis(), overdue, cfg.min_idle)));
+                        }
                     }
                 }
                 // pool membership: live sessions in the model's map must be counted
@@ -281,8 +320,43 @@ fn enabled(h: &[Op], max_sessions: usize) -> Vec<Op> {
             v.push(Op::Die(i));
         }
     }
+    let gets = h.iter().filter(|o| matches!(o, Op::Get)).count();
+    let puts = h.iter().filter(|o| matches!(o, Op::Put(_))).count();
+    if gets > puts {
+        for i in 0..n {
+            v.push(Op::Put(i));
+        }
+    }
     if n > 0 {
         v.push(Op::Cleanup);
+        v.push(Op::Adv(0));
+        v.push(Op::Adv(1));
+        v.push(Op::Adv(2));
+    }
+    v
+}
+
+/// Pool-only sub-alphabet (no streams, deaths or explicit passes) for deeper histories: the order in which
+/// sessions come back to the pool need not be the order of their sequence numbers.
+fn enabled_pool(h: &[Op], max_sessions: usize, last: bool) -> Vec<Op> {
+    let n = h.iter().filter(|o| matches!(o, Op::New(_))).count();
+    let gets = h.iter().filter(|o| matches!(o, Op::Get)).count();
+    let puts = h.iter().filter(|o| matches!(o, Op::Put(_))).count();
+    let mut v = vec![];
+    if !last {
+        if n < max_sessions {
+            v.push(Op::New(false));
+        }
+        if n + puts > gets {
+            v.push(Op::Get);
+        }
+        if gets > puts {
+            for i in 0..n {
+                v.push(Op::Put(i));
+            }
+        }
+    }
+    if n > 0 {
         v.push(Op::Adv(0));
         v.push(Op::Adv(1));
         v.push(Op::Adv(2));
@@ -509,6 +583,25 @@ pub fn run(tier: Tier) -> i32 {
         }
         hists = next;
     }
+    // second family: pool-only alphabet, deeper (the last operation is a clock advance, where the oracles fire)
+    let depth2 = if thorough { 8 } else { 7 };
+    let mut hists2: Vec<Vec<Op>> = vec![vec![]];
+    for d in 0..depth2 {
+        let mut next = vec![];
+        for h in &hists2 {
+            for o in enabled_pool(h, max_sessions, d + 1 == depth2) {
+                let mut n = h.clone();
+                n.push(o);
+                next.push(n);
+            }
+        }
+        hists2 = next;
+    }
+    let known: std::collections::HashSet<Vec<Op>> = hists.iter().cloned().collect();
+    hists2.retain(|h| !known.contains(h));
+    let n_h1 = hists.len();
+    let n_h2 = hists2.len();
+    hists.extend(hists2);
     let n_h = hists.len();
     let hists = Arc::new(hists);
     for cfg in &cfgs {
@@ -526,8 +619,8 @@ pub fn run(tier: Tier) -> i32 {
         });
         let mut distinct = std::collections::HashSet::new();
         for (i, (viols, trace)) in res.into_iter().enumerate() {
-            rep.states += depth as u64 + 1;
-            rep.transitions += depth as u64;
+            rep.states += hists[i].len() as u64 + 1;
+            rep.transitions += hists[i].len() as u64;
             rep.traces_validated += 1;
             distinct.insert(trace.clone());
             let key = format!("{:?}|{}", (cfg.interval_ms, cfg.timeout_ms, cfg.min_idle), hist_str(&hists[i]));
@@ -548,6 +641,6 @@ pub fn run(tier: Tier) -> i32 {
         }
     }
     crate::dxrun::run_items(&mut rep, "C12", tier, conc_items(tier), crate::dxrun::DxOpts { time_cap: Duration::from_secs(if thorough { 600 } else { 40 }), det_replays: 2, max_violations: 2, vacuity_check: false });
-    rep.sections.insert("bx".into(), json!({"histories_per_config": n_h, "depth": depth, "max_sessions": max_sessions, "configs": cfgs.iter().map(|c| json!([c.interval_ms, c.timeout_ms, c.min_idle])).collect::<Vec<_>>()}));
-    rep.finish("BX: every operation history of depth d over {new, new+stream, get, open(s), fin(s), die(s), cleanup, advance(I/2 | I | T)} with <= 2 (3) sessions x 4 (6) pool configurations, each replayed from scratch on the real SessionPool / Sessions under virtual time and checked after every step (Get never returns a closed or already taken session, housekeeping never closes a session in use or handed out, minimum idle kept, idle_count vs model) and for the eventual reaping of surplus idle sessions; non-trivial = distinct (config, history)")
+    rep.sections.insert("bx".into(), json!({"histories_per_config": n_h, "full_alphabet_histories": n_h1, "pool_only_histories": n_h2, "pool_only_depth": depth2, "depth": depth, "max_sessions": max_sessions, "configs": cfgs.iter().map(|c| json!([c.interval_ms, c.timeout_ms, c.min_idle])).collect::<Vec<_>>()}));
+    rep.finish("BX: every operation history of depth d over {new, new+stream, get, put(s), open(s), fin(s), die(s), cleanup, advance(I/2 | I | T)} (plus every history of depth d+2 over the pool-only sub-alphabet {new, get, put(s), advance}) with <= 2 (3) sessions x 4 (6) pool configurations, each replayed from scratch on the real SessionPool / Sessions under virtual time and checked after every step (Get never returns a closed or already taken session, housekeeping never closes a session in use or handed out, minimum idle kept, no stream-less pooled session idle for longer than the timeout survives a pass beyond the minimum, idle_count vs model) and for the eventual reaping of surplus idle sessions; non-trivial = distinct (config, history)")
 }
